@@ -148,7 +148,12 @@ func StringToNumber(s string) (n int64, f float64, tp NumberType) {
 	// If the string starts with -?0[xX] then it may be an hex number
 	if s[0] == '+' {
 		s = s[1:]
-	} else if s[0] == '-' || s[0] == '+' {
+		// At most one sign is allowed
+		if len(s) == 0 || s[0] == '+' || s[0] == '-' {
+			tp = NaN
+			return
+		}
+	} else if s[0] == '-' {
 		i0++
 	}
 	var isHex = len(s) >= 2+i0 && s[i0] == '0' && (s[i0+1] == 'x' || s[i0+1] == 'X')
